@@ -37,8 +37,8 @@ class Ev:
         self.excluded_known.update(other.excluded_known)
         self.inconclusive += other.inconclusive
         for k, v in other.extra.items():
-            if isinstance(v, dict) and k == "fold":
-                self.extra.setdefault("fold", {}).update(v)
+            if isinstance(v, dict) and k in ("fold", "unfolded_calls"):
+                self.extra.setdefault(k, {}).update(v)
             elif isinstance(v, dict) and k == "sites":
                 tgt = self.extra.setdefault("sites", {})
                 for sk, sv in v.items():
